@@ -20,7 +20,7 @@ RULE = ("cases = a generated multi-statement script (one column per line where p
         "(style x text x line position) over two base scripts, then seeded random multi-insertion scripts. Indented multi-line block "
         "comments and comments containing another comment marker are generated as separate, single-comment cases (known findings). "
         "Non-trivial = at least one comment inserted; distinct = distinct commented script."
-        " Added after seeded defects: interior and closing lines of block comments that start like ignored lines or comments, '--' inside '--' comments, '#text' / '##text', end-of-input tails (no final ';', no final newline), the comments entry on a second run of the same object, comment text glued to the dashes or the opener, comments glued to the code.")
+        " Added after seeded defects: interior and closing lines of block comments that start like ignored lines or comments, '--' inside '--' comments, '#text' / '##text', end-of-input tails (no final ';', no final newline), the comments entry on a second run of the same object, comment text glued to the dashes or the opener, comments glued to the code, a block comment's closing line that goes on with another comment.")
 ASSUMPTIONS = ["comment texts contain no quotes and (outside the known-finding class) none of the sequences --, /*, */",
                "no code follows a comment on the same line", "containment of a reported comment item is tested after removing white space (the pre-processor re-spaces , ( ) = inside comment text too)"]
 MIN_EVENTS = {"statements": 100, "run_return": 100}
@@ -71,6 +71,9 @@ def make_comment(rng, style, mk, text=None, indent=""):
                 l.append(indent + "   " + mk.next() + " more " + rng.choice(TEXTS))
         if style == "blockml":
             l.append(indent + "*/")
+            if not indent and rng.random() < 0.3:
+                # the closing line goes on with another comment (the line still belongs to the block comment as a whole)
+                l[-1] += rng.choice([" -- " + mk.next() + " trailing note", " /* " + mk.next() + " second remark */", " --" + mk.next(), " # " + mk.next() + " x"])
         elif not indent and rng.random() < 0.4:
             # the closing line itself starts, at column 0, like a comment / an ignored line
             l.append(rng.choice(["--", "#", "-- x", "delete", "GO", "INSERT"]) + " " + mk.next() + " last " + t + " */")
